@@ -406,3 +406,27 @@ func VerifC17_PartialIO() {
 	}
 	vf.Reach("end")
 }
+
+// Writes on a stream that is no longer active: after the application's own AsyncClose (and optionally the
+// peer's Close) an AsyncWrite / AsyncWriteFrame is refused — its callback runs exactly once, with an
+// error, and puts nothing on the wire — and the close callback is not disturbed.
+func VerifC17_WriteWhenNotActive() {
+	w := c17New()
+	vf.Unwind(64)
+	w.startClose()
+	if vf.Bool("peer-closes-too") {
+		vkernel.PeerSends(w.fd, wsEncode(nil, &wsFrame{fin: true, opcode: 8, n: 2, payload: []byte{0x03, 0xe8}}))
+		w.startRead()
+	}
+	if vf.Bool("poll-between") {
+		w.ioc.PollOne()
+	}
+	w.closed = false // let the ghost issue the write; the stream must refuse it
+	id := w.nops
+	w.startWrite()
+	w.closed = true
+	vf.Assert("late-write-was-issued", w.nops == id+1)
+	vf.Assert("late-write-refused-at-once-exactly-once", vf.All(w.ops[id].calls == 1, w.ops[id].err != nil))
+	w.finishWith(false)
+	vf.Reach("end")
+}
